@@ -13,7 +13,7 @@
 //!   out : b:<row_id>:<v,v,..> | none | h:<hint>:<0|1> | r:<row_id> | k:<rows skipped by sh> | err | panic (stops)
 use rlverif::risinglight::array::{ArrayBuilderImpl, ArrayImpl};
 use rlverif::risinglight::storage::secondary_verif as hk;
-use rlverif::risinglight::types::{DataType, DataValue, Date};
+use rlverif::risinglight::types::{DataType, DataValue, Date, Interval, Timestamp, TimestampTz};
 use rlverif::*;
 
 fn dtype(ty: &str) -> DataType {
@@ -26,6 +26,11 @@ fn dtype(ty: &str) -> DataType {
         "date" => DataType::Date,
         "str" => DataType::String,
         "blob" => DataType::Blob,
+        "dec" => DataType::Decimal(Some(28), Some(10)),
+        "ts" => DataType::Timestamp,
+        "tstz" => DataType::TimestampTz,
+        "iv" => DataType::Interval,
+        "vec" => DataType::Vector(3),
         _ => panic!("bad type {ty}"),
     }
 }
@@ -44,6 +49,19 @@ fn parse_val(t: &str) -> DataValue {
         "date" => DataValue::Date(Date::new(rest.parse().unwrap())),
         "s" => DataValue::String(String::from_utf8(unhex(rest).unwrap()).unwrap().into()),
         "blob" => DataValue::Blob(unhex(rest).unwrap().into()),
+        "ts" => DataValue::Timestamp(Timestamp::new(rest.parse().unwrap())),
+        "tstz" => DataValue::TimestampTz(TimestampTz::new(rest.parse().unwrap())),
+        "iv" => {
+            let p: Vec<i32> = rest.split(':').map(|x| x.parse().unwrap()).collect();
+            DataValue::Interval(Interval::from_md(p[0], p[1]) + Interval::from_secs(p[2] / 1000))
+        }
+        "dec" | "vec" => {
+            // through the engine's own text parser (no rust_decimal dependency in the harness)
+            let ty = if tag == "dec" { DataType::Decimal(Some(28), Some(10)) } else { DataType::Vector(3) };
+            let mut b = ArrayBuilderImpl::new(&ty);
+            b.push_str(&rest.replace(';', ",")).unwrap();
+            b.finish().get(0)
+        }
         _ => panic!("bad value {t}"),
     }
 }
@@ -83,6 +101,14 @@ fn gen_domain(r: &mut Rng, ty: &str, cw: Option<usize>, block: usize, feat: &mut
                 };
                 DataValue::Float64(f64::from_bits(bits).into())
             }
+            "dec" => parse_val(&format!("dec:{}", r.pick(&["0", "1.5", "-1.5", "123456789.123456789", "-0.0000000001", "79228162514264337593543950335", "3", "42.42"]))),
+            "ts" => DataValue::Timestamp(Timestamp::new(*r.pick(&[i64::MIN, -1, 0, 1, 1_700_000_000_000_000, 0x0102030405060708, i64::MAX]))),
+            "tstz" => DataValue::TimestampTz(TimestampTz::new(*r.pick(&[i64::MIN, -1, 0, 1, 1_700_000_000_000_000, 0x0102030405060708, i64::MAX]))),
+            "iv" => {
+                let ms = if r.chance(1, 6) { feat.push("interval-subday"); *r.pick(&[1000, 3_600_000, -5000]) } else { 0 };
+                parse_val(&format!("iv:{}:{}:{}", r.pick(&[0, 1, -1, 14, i32::MAX]), r.pick(&[0, 1, -1, 31, i32::MIN]), ms))
+            }
+            "vec" => parse_val(&format!("vec:{}", r.pick(&["[0;0;0]", "[1;2;3]", "[-1.5;0.25;1e300]", "[1;2;4]", "[NaN;inf;-inf]"]))),
             "str" | "blob" => {
                 let maxlen = match cw { Some(w) => w, None => 64 };
                 let mut bytes: Vec<u8> = match r.below(10) {
@@ -117,10 +143,10 @@ fn gen_domain(r: &mut Rng, ty: &str, cw: Option<usize>, block: usize, feat: &mut
     out
 }
 
-fn gen_values(r: &mut Rng, n: usize, dom: &[DataValue], nullable: bool, feat: &mut Vec<&'static str>) -> Vec<DataValue> {
-    let null_in_nonnull = !nullable && r.chance(1, 25);
+fn gen_values(r: &mut Rng, n: usize, dom: &[DataValue], nullable: bool, nonull: bool, novec: bool, feat: &mut Vec<&'static str>) -> Vec<DataValue> {
+    let null_in_nonnull = !nullable && r.chance(1, 25) && !nonull;
     if null_in_nonnull { feat.push("null-in-nonnullable"); }
-    let nulls = nullable && r.chance(4, 5) || null_in_nonnull;
+    let nulls = (nullable && r.chance(4, 5) || null_in_nonnull) && !novec;
     let mut out = Vec::with_capacity(n);
     let style = r.below(4);
     while out.len() < n {
@@ -188,7 +214,8 @@ fn gen(n_arrays: usize, out: &str) {
     let mut r = Rng::from_env();
     let mut s = String::new();
     for _ in 0..n_arrays {
-        let ty = *r.pick(&TYPES);
+        // 1 in 6 arrays uses a type without a byte model (read-back oracle only)
+        let ty = if r.chance(1, 6) { *r.pick(&["dec", "ts", "tstz", "iv", "vec"]) } else { *r.pick(&TYPES) };
         let nullable = r.chance(1, 2);
         let enc = *r.pick(&["plain", "rle", "dict"]);
         let cw: Option<usize> = if ty == "str" && r.chance(2, 5) { Some(*r.pick(&[1usize, 2, 3, 5, 8, 16])) } else { None };
@@ -204,8 +231,8 @@ fn gen(n_arrays: usize, out: &str) {
         let crc = r.chance(1, 4);
         let mut feat: Vec<&'static str> = vec![];
         let dom = gen_domain(&mut r, ty, cw, block.min(200), &mut feat);
-        let vals = gen_values(&mut r, n, &dom, nullable, &mut feat);
-        let vtxt: Vec<String> = vals.iter().map(canon_value).collect();
+        let vals = gen_values(&mut r, n, &dom, nullable, ["dec", "ts", "tstz", "iv", "vec"].contains(&ty), ty == "vec", &mut feat);
+        let vtxt: Vec<String> = vals.iter().map(cv).collect();
         feat.sort(); feat.dedup();
         let nprog = if n == 0 { 1 } else { 4 };
         for kind in 0..nprog {
@@ -259,8 +286,13 @@ pub fn parse_req(line: &str) -> Req {
     }
 }
 
+/// canonical value text without commas (vectors print as `[1,2,3]`)
+fn cv(v: &DataValue) -> String {
+    canon_value(v).replace(',', ";")
+}
+
 fn fmt_batch(row_id: u32, a: &ArrayImpl) -> String {
-    let vs: Vec<String> = (0..a.len()).map(|i| canon_value(&a.get(i))).collect();
+    let vs: Vec<String> = (0..a.len()).map(|i| cv(&a.get(i))).collect();
     format!("b:{}:{}", row_id, vs.join(","))
 }
 
